@@ -26,6 +26,16 @@ E10 = T.E10
 
 
 # ----------------------------------------------------------------------------------------- helpers
+
+def _invalid_params(ctx, e):
+    """a parameter set the model itself rejects as invalid (InvalidModelException and subclasses) is outside every
+    property's quantifier: recorded in the malformed stream, never judged"""
+    from taurex.exceptions import InvalidModelException
+    if isinstance(e, InvalidModelException):
+        ctx.malformed_outcome('invalid-model-after-setters:' + type(e).__name__)
+        return True
+    return False
+
 def base_spec(rng, k):
     regime = ['thin', 'mid', 'thick', 'mid'][k % 4]
     nl = int(rng.integers(2, 31)) if rng.random() < 0.8 else int(rng.integers(2, 5))
@@ -221,6 +231,8 @@ def reuse_check(ctx, spec, m):
         m2, wn2, depth2, trans2, p2, c2 = T.run_real(with_contribs(spec, e2))
         sig2 = np.array(find(m2, cname).sigma_xsec, float)
     except Exception as e:
+        if _invalid_params(ctx, e):
+            return
         ctx.violation('stale-state:raises:' + type(e).__name__, 'reused model raised %r after parameter setters' % (e,), spec)
         return
     ctx.bucket('reuse-check:' + spec['kind'])
